@@ -210,7 +210,7 @@ fn check_exact(a: &Analysis, d: &Delivery, runs: &BTreeMap<Inst, u32>, busy_bodi
         }
     }
     for (inst, o) in runs.iter() {
-        if !d.exp.iter().any(|e| e.inst == *inst) && !busy_bodies {
+        if !d.exp.iter().any(|e| e.inst == *inst && e.total > 0) && !busy_bodies {
             v.push(Violation::new(
                 "C14",
                 format!("C14/trigger-reached-unregistered/{how}"),
@@ -338,10 +338,44 @@ pub fn c16(cx: &Ctx) -> (Vec<Violation>, Cover) {
                 }
                 match (r.obs.ew_local, src) {
                     (None, _) => {
+                        // Classify: were the entity's triggers removed, or the entity despawned, between the cause
+                        // of this reaction and the run (i.e. while the reaction was already scheduled)?
+                        let cause_pos = r
+                            .obs
+                            .payload_ids()
+                            .first()
+                            .and_then(|id| cx.dels.iter().find(|d| d.key == Key::Pay(*id)).map(|d| d.pre))
+                            .or_else(|| {
+                                let keys = keys_of_obs(&r.obs);
+                                cx.dels.iter().filter(|d| keys.contains(&d.key) && d.pre < r.pos && d.exp.iter().any(|e| e.inst == r.inst && e.total > 0)).map(|d| d.pre).last()
+                            })
+                            .or_else(|| {
+                                r.obs.seen().iter().find_map(|s| match s {
+                                    Seen::Rem(c, e) => a.removals.iter().filter(|x| x.ent == *e && x.comp == *c && x.pos < r.pos && !x.by_despawn).map(|x| x.pos).last(),
+                                    _ => None,
+                                })
+                            });
+                        let class = match (cause_pos, src) {
+                            (Some(cp), Some(e)) => {
+                                let removed = a.cmds.iter().any(|c| {
+                                    matches!(&c.act, RAct::EwRemove { inst, ent, .. } if *inst == r.inst && *ent == e)
+                                        && c.post.map(|p| p > cp && p < r.pos).unwrap_or(false)
+                                });
+                                let died = a.deaths.iter().any(|d| d.ent == e && d.pos > cp && d.pos < r.pos);
+                                if removed {
+                                    "triggers-removed-while-reaction-pending"
+                                } else if died {
+                                    "entity-despawned-while-reaction-pending"
+                                } else {
+                                    "other"
+                                }
+                            }
+                            _ => "no-source",
+                        };
                         v.push(Violation::new(
                             "C16",
-                            "C16/entity-local-unavailable",
-                            format!("run {} of entity world reactor {} (source {:?}) could not read EntityLocal", r.run, r.inst, src),
+                            format!("C16/entity-local-unavailable/{class}"),
+                            format!("run {} of entity world reactor {} (source {:?}) could not read EntityLocal ({class}; cause at {:?})", r.run, r.inst, src, cause_pos),
                             r.pos,
                         ));
                     }
